@@ -7,6 +7,7 @@ package imapwire
 
 import (
 	"bufio"
+	"io"
 
 	"github.com/emersion/go-imap/v2"
 )
@@ -197,3 +198,62 @@ func NonSyncAllowed(enc *Encoder, size int64) bool {
 //@   requires enc != nil
 //@   callsite Encoder.Literal(e *Encoder, size int64, sync *ContinuationRequest) requires size == int64(len(s)) && (e.side == ConnSideClient && sync == nil ==> NonSyncAllowed(e, size))
 //@   ensures !__called("Encoder.Literal") ==> enc.err != nil
+
+// isErrorWriter: the returned writer discards the payload.
+//
+//@ pure
+func isErrorWriter(w io.WriteCloser) bool {
+	_, ok := w.(errorWriter)
+	return ok
+}
+
+// Encoder.Literal: the "+" marker is written exactly for client-side literals
+// without continuation request; with a continuation request the payload
+// writer is handed out only after the server's go-ahead — a refusal (Wait
+// returning an error) or a failed flush yields a writer that drops the payload.
+//
+//@ func (enc *Encoder) Literal(size int64, sync *ContinuationRequest) (result io.WriteCloser)
+//@   props C18:post,pre@call,callsite,panic-unreachable C01:post,pre@call,callsite
+//@   requires enc != nil
+//@   panics only if sync != nil && enc.side == ConnSideServer
+//@   ensures __called("ContinuationRequest.Wait") && __failed("ContinuationRequest.Wait") ==> isErrorWriter(result)
+//@   ensures sync != nil && !isErrorWriter(result) ==> __called("ContinuationRequest.Wait") && !__failed("ContinuationRequest.Wait")
+//@   ensures !isErrorWriter(result) ==> enc.literal
+
+// FlagGrammar: flag-keyword / flag-extension = ["\"] 1*ATOM-CHAR.
+//
+//@ pure
+func FlagGrammar(s string) bool {
+	return len(s) > 0 && (s[0] != '\\' || len(s) > 1) && __forall(func(i int) bool {
+		return !(0 <= i && i < len(s)) || (s[i] == '\\' && i == 0) || (s[i] != '\\' && IsAtomChar(s[i]))
+	})
+}
+
+//@ func isValidFlag(s string) (result bool)
+//@   props C01
+//@   ensures result == FlagGrammar(s)
+//@   loop 0 vars (i int)
+//@   loop 0 invariant 0 <= i && i <= len(s)
+//@   loop 0 invariant forall k int :: 0 <= k && k < i ==> (s[k] == 92 && k == 0) || (s[k] != 92 && IsAtomChar(s[k]))
+//@   loop 0 decreases len(s) - i
+
+// Unrepresentable values are refused: an error is recorded and nothing is written.
+//
+//@ func (enc *Encoder) Flag(flag imap.Flag) (result *Encoder)
+//@   props C01:post,pre@call
+//@   requires enc != nil
+//@   ensures string(flag) != "\\*" && !FlagGrammar(string(flag)) ==> enc.err != nil && !__called("Encoder.writeString")
+
+//@ func (enc *Encoder) MailboxAttr(attr imap.MailboxAttr) (result *Encoder)
+//@   props C01:post,pre@call
+//@   requires enc != nil
+//@   ensures !(FlagGrammar(string(attr)) && string(attr)[0] == 92) ==> enc.err != nil && !__called("Encoder.writeString")
+
+//@ func (enc *Encoder) NumSet(numSet imap.NumSet) (result *Encoder)
+//@   props C01:post,pre@call
+//@   requires enc != nil && numSet != nil
+//@   ensures !__called("Encoder.writeString") ==> enc.err != nil
+
+//@ func (enc *Encoder) setErr(err error)
+//@   ensures err != nil ==> enc.err != nil
+//@   ensures old(enc.err) != nil ==> enc.err == old(enc.err)
